@@ -224,6 +224,11 @@ def _declare(reg: kopf.OperatorRegistry, hid: str, decl: dict, outcome: str, ran
 
 # ---- (B) mutations -------------------------------------------------------------------------------
 
+def _bump(b: dict) -> None:
+    spec = b.setdefault('spec', {})
+    spec['n'] = spec.get('n', 0) + 1
+
+
 def statements() -> list[tuple[str, Any]]:
     S: list[tuple[str, Any]] = []
 
@@ -253,6 +258,8 @@ def statements() -> list[tuple[str, Any]]:
     st('fn: number -> boolean', lambda p: p.fns.append(lambda b: b['spec'].__setitem__('x', True) if isinstance(b.get('spec'), dict) and b['spec'].get('x') == 1 else None))
     st('fn: append finalizer', lambda p: p.fns.append(lambda b: b.setdefault('metadata', {}).setdefault('finalizers', []).append('x/y')))
     st('fn: drop spec.x', lambda p: p.fns.append(lambda b: b.get('spec', {}).pop('x', None) if isinstance(b.get('spec'), dict) else None))
+    # one function object requested twice (a shared helper used by two code paths of a handler): two requests, two applications
+    st('fn: same counter function twice', lambda p: (p.fns.append(_bump), p.fns.append(_bump)))
     return S
 
 
